@@ -41,22 +41,64 @@ def _board_classes():
     from jumanji.environments.routing.connector import Connector
     from jumanji.environments.routing.connector.types import State
 
+    import jax.numpy as jnp
+
+    def walk_draws(gen, board_key):
+        """the draws of `RandomWalkGenerator.generate_board(board_key)`, replayed with the generator's own functions on
+        the same keys: per agent (start cell, first-move cell) from `_initialize_starts_and_first_move`; per iteration of
+        the while loop the cell every agent's `_select_action` draws (`jax.random.choice` over `_available_cells` with
+        the key `_step_agents` gives that agent).  The state is advanced by the real `_step`.  (`connector.instance`
+        checks that the Lean transliteration run on these draws reproduces the real `generate_board` output.)"""
+        n, k = gen.grid_size, gen.num_agents
+        T = n * n + 2
+        grid0 = jnp.zeros((n, n), jnp.int32)
+        key, step_key = jax.random.split(board_key)                       # as generate_board
+        _, (starts, firsts) = jax.lax.scan(gen._initialize_starts_and_first_move, (key, grid0.reshape(-1)), jnp.arange(k))
+        grid, agents = gen._initialize_agents(key, grid0)
+
+        def cond(c):
+            key, grid, agents, t, tape = c
+            return gen._continue_stepping((key, grid, agents)) & (t < T)
+
+        def body(c):
+            key, grid, agents, t, tape = c
+            k1, _ = jax.random.split(key)                                   # as _step
+            keys = jax.random.split(k1, num=k)                              # as _step_agents
+
+            def sel(kk, agent):                                             # as _select_action, before _action_from_positions
+                cell = gen._convert_tuple_to_flat_position(agent.position)
+                avail = gen._available_cells(grid=grid, cell=cell)
+                return jax.random.choice(key=kk, a=avail, shape=(), replace=True, p=avail != -1)
+
+            chosen = jax.vmap(sel)(keys, agents)
+            nk, grid2, agents2 = gen._step((key, grid, agents))
+            return nk, grid2, agents2, t + 1, tape.at[t].set(chosen.astype(jnp.int32))
+
+        tape0 = jnp.full((T, k), -2, jnp.int32)
+        _, _, _, t, tape = jax.lax.while_loop(cond, body, (step_key, grid, agents, jnp.int32(0), tape0))
+        return jnp.stack([starts, firsts], 1).astype(jnp.int32), tape, t
+
     @chex.dataclass
     class StateB(State):  # type: ignore[misc]
         solved_grid: chex.Array
+        walk_init: chex.Array
+        walk_tape: chex.Array
+        walk_len: chex.Array
 
     class ConnectorB(Connector):
         def reset(self, key):
             state, ts = super().reset(key)
             _, board_key = jax.random.split(key)          # as RandomWalkGenerator.__call__
             solved, _, _ = self._generator.generate_board(board_key)
+            init, tape, t = walk_draws(self._generator, board_key)
             return StateB(grid=state.grid, step_count=state.step_count, agents=state.agents, key=state.key,
-                          solved_grid=solved), ts
+                          solved_grid=solved, walk_init=init, walk_tape=tape, walk_len=t), ts
 
         def step(self, state, action):
             s2, ts = super().step(state, action)
             return StateB(grid=s2.grid, step_count=s2.step_count, agents=s2.agents, key=s2.key,
-                          solved_grid=state.solved_grid), ts
+                          solved_grid=state.solved_grid, walk_init=state.walk_init, walk_tape=state.walk_tape,
+                          walk_len=state.walk_len), ts
 
     _BOARD_CLS["state"], _BOARD_CLS["env"] = StateB, ConnectorB
     return StateB, ConnectorB
@@ -90,7 +132,7 @@ class A(Adapter):
                 return cls(generator=g, time_limit=tl)
             out.append(Config(f"connector-{tag}-n{n}-k{k}-t{tl}-{gen}", build,
                               {"grid_size": n, "num_agents": k, "time_limit": tl,
-                               "connected_reward": rat(1.0), "timestep_reward": [-3, 100]},
+                               "connected_reward": rat(1.0), "timestep_reward": [-3, 100], "generator": gen},
                               n=n, k=k, time_limit=tl, gen=gen, board=board))
         return out
 
@@ -103,6 +145,9 @@ class A(Adapter):
                           for i in range(ids.shape[0])]}
         if hasattr(s, "solved_grid") and int(s.step_count) == 0:
             out["solved"] = ser(s.solved_grid)
+        if hasattr(s, "walk_tape") and int(s.step_count) == 0:
+            t = int(s.walk_len)
+            out["walk"] = {"init": ser(s.walk_init), "tape": ser(np.asarray(s.walk_tape)[:t]), "solved": ser(s.solved_grid)}
         return out
 
     def ser_obs(self, env, o):
